@@ -22,6 +22,10 @@ inductive AST where
   | none
 deriving Repr, Inhabited
 
+def notName : Name := ['n', 'o', 't']
+def qName : Name := ['?']
+def colonName : Name := [':']
+
 namespace AST
 
 mutual
